@@ -56,7 +56,6 @@ func verifAcctClient() *Client {
 		logger: zap.NewNop(), timeout: 3e9, retries: 3, limiters: []*rate.Limiter{rate.NewLimiter(1000, 100)}}
 }
 
-
 // Every 64-bit counter value is reported exactly through the low-word/gigaword split, and the record carries the
 // session's own identifiers.
 func VerifC08_Gigawords() {
@@ -102,6 +101,7 @@ func init() {
 type vAcctWorld struct {
 	c           *Client
 	am          *AccountingManager
+	retries     int     // MaxRetries of the managers this world boots (0: 10)
 	crashes     int     // crashes so far
 	maxCrash    int     // crash budget of this run
 	restarts    int     // graceful restarts so far
@@ -157,7 +157,11 @@ func (w *vAcctWorld) run(f func()) bool {
 // ProcessQueue / RetryTick operations of the harness).
 func (w *vAcctWorld) boot() {
 	for {
-		am, err := NewAccountingManager(w.c, AccountingConfig{DefaultInterimInterval: 300e9, InterimEnabled: true, MaxRetries: 10,
+		maxRetries := 10
+		if w.retries > 0 {
+			maxRetries = w.retries
+		}
+		am, err := NewAccountingManager(w.c, AccountingConfig{DefaultInterimInterval: 300e9, InterimEnabled: true, MaxRetries: maxRetries,
 			RetryBaseDelay: 1e9, RetryMaxDelay: 60e9, QueueSize: 16, PersistPath: "/acct", ShutdownTimeout: 30e9, DrainOnShutdown: true}, zap.NewNop())
 		vAssume(err == nil)
 		w.am = am
@@ -290,6 +294,47 @@ func verifAcctCount(id string, st AcctStatusType) int {
 	return n
 }
 
+// An outage that stays within the configured retry budget never loses a record: with MaxRetries = R a refused
+// Stop (or Start) survives R-1 failed retries - taken from the queue or by the retry timer, in any mix - and is
+// delivered by the next one.
+func VerifC08_RetryBudget() {
+	r := vParam("R", 3)
+	w := &vAcctWorld{c: verifAcctClient(), retries: r}
+	w.boot()
+	vRadiusServer(1)
+	startRefused := ndPick("start-refused", 2) == 1
+	if startRefused {
+		vRadiusServer(2)
+	}
+	vAssume(w.am.StartSession(w.session(0)) == nil)
+	vRadiusServer(2) // the server is unreachable when the session stops
+	if !startRefused {
+		vAssume(w.am.StopSession(vAcctIDs[0], TerminateCauseUserRequest) == nil)
+	}
+	failed := ndPick("failed-retries", r) // 0..R-1 retries fail, the next one finds the server back
+	attempt := func() {
+		if ndPick("via", 2) == 0 && w.pumpQueue() {
+			return
+		}
+		vAdvance(61e9)
+		w.am.retryPendingRecords()
+	}
+	for i := 0; i < failed; i++ {
+		attempt()
+	}
+	vRadiusServer(1)
+	attempt()
+	for w.pumpQueue() {
+	}
+	want := AcctStatusStop
+	if startRefused {
+		want = AcctStatusStart
+	}
+	vAssert(verifAcctCount(vAcctIDs[0], want) == 1, "a record refused during an outage within the retry budget was not delivered exactly once when the server came back")
+	vAssert(len(w.am.pendingRecords) == 0, "a delivered record is still pending")
+	vReach("end")
+}
+
 var errNotRun error = &net.AddrError{Err: "not run"}
 
 func verifAcctObligations(w *vAcctWorld, nsess int) {
@@ -343,6 +388,7 @@ func verifAcctObligations(w *vAcctWorld, nsess int) {
 
 func init() {
 	vHarness["VerifC08_History"] = VerifC08_History
+	vHarness["VerifC08_RetryBudget"] = VerifC08_RetryBudget
 }
 
 // VerifAcctSessionIDs lists the distinct Acct-Session-Id values the server has seen.
